@@ -36,7 +36,7 @@ func vp_C16_wellknown() {
 	rt := &vpWellKnownRT{header: http.Header{}}
 	rt.fail = vpNondetBool("transport_fails")
 	rt.status = vpNondetInt("status", 100, 599) // any status code; only 200 counts
-	bodyKind := vpChoice("body", "delegates", "delegates-with-port", "delegates-and-names-a-lifetime", "no-m.server", "empty-m.server", "not-json")
+	bodyKind := vpChoice("body", "delegates", "delegates-with-port", "delegates-and-names-a-lifetime", "no-m.server", "empty-m.server", "not-json", "oversized", "exactly-50KiB")
 	switch bodyKind {
 	case "delegates":
 		rt.body = []byte(`{"m.server":"matrix.example.org"}`)
@@ -49,6 +49,20 @@ func vp_C16_wellknown() {
 		rt.body = []byte(`{"server":"matrix.example.org"}`)
 	case "empty-m.server":
 		rt.body = []byte(`{"m.server":""}`)
+	case "oversized", "exactly-50KiB":
+		// a well-formed delegation padded with white space to exactly 50 KiB, resp. more: the size limit
+		// must hold whether or not the reply announces its length
+		// (the oversized one continues after 50 KiB, so that its first 50 KiB are a complete document)
+		b := make([]byte, 51200)
+		for i := range b {
+			b[i] = ' '
+		}
+		copy(b, `{"m.server":"matrix.example.org"`)
+		b[51199] = '}'
+		if bodyKind == "oversized" {
+			b = append(b, []byte("   and a lot more")...)
+		}
+		rt.body = b
 	default:
 		rt.body = []byte(`<html>`)
 	}
@@ -95,7 +109,7 @@ func vp_C16_wellknown() {
 	http.DefaultTransport = old
 
 	vpAssert("asked-the-well-known-url", rt.asked == "https://example.org/.well-known/matrix/server")
-	honoured := !rt.fail && rt.status == 200 && cl != "51201" && (bodyKind == "delegates" || bodyKind == "delegates-with-port" || bodyKind == "delegates-and-names-a-lifetime")
+	honoured := !rt.fail && rt.status == 200 && cl != "51201" && (bodyKind == "delegates" || bodyKind == "delegates-with-port" || bodyKind == "delegates-and-names-a-lifetime" || bodyKind == "exactly-50KiB")
 	vpAssert("honoured-iff-valid", (err == nil) == honoured)
 	if err == nil {
 		wantAddr := "matrix.example.org"
